@@ -25,6 +25,11 @@ func VectorPool(metric string) (stored [][]float32, queries [][]float32) {
 		}
 		stored = [][]float32{u(0), u(30), u(90), u(180), u(270), u(45), u(135), u(300)}
 		queries = [][]float32{u(10), u(100), u(225), {0, 0, 1, 0}}
+	case "euclidean1":
+		// huge but legal magnitudes: squared differences overflow float32 to +Inf (one huge component per
+		// vector, so no Inf - Inf); a point at an infinite distance is still a stored point
+		stored = [][]float32{{0, 0, 0, 0}, {1, 0, 0, 0}, {3e19, 0, 0, 0}, {0, 2, 0, 0}, {-3e19, 1, 0, 0}, {1, 0, 0, 0.5}, {2e19, 0, 0, 0}, {0, 0, 1, 0}}
+		queries = [][]float32{{0, 0, 0, 0}, {3e19, 0, 0, 0}, {1, 1, 0, 0}, {-1e19, 0, 0, 0}}
 	default: // euclidean, dot: small lattice, exact in float32
 		stored = [][]float32{{0, 0, 0, 0}, {1, 0, 0, 0}, {0, 2, 0, 0}, {3, 3, 0, 0}, {-1, 0, 0, 2}, {1, 0, 0, 0.5}, {2, 2, 0, 0}, {0, 0, 1, 0}}
 		queries = [][]float32{{0, 0, 0, 0}, {1, 1, 0, 0}, {-2, 0.5, 0, 1}, {3, 3, 0, 0}}
